@@ -68,6 +68,7 @@ func vResetWorld() {
 	vSessOwner = map[*yamux.Session]string{}
 	vHops, vHandlerRuns, vCaptured, vToken, vRoundTrip, vStatuses = 0, 0, nil, nil, 0, nil
 	upstream.VerifOpened = nil
+	upstream.VerifStreamCloses = 0
 	upstream.VerifHopDials = nil
 	upstream.VerifOpenOutcome = map[*yamux.Session]int{}
 	upstream.VerifHopDialFail = map[string]bool{}
